@@ -60,7 +60,18 @@ def attach(module, name, before=None, after=None, key=None):
     key = key or '%s.%s' % (module.__name__.split('.')[-1], name)
     COUNTS.setdefault(key, 0)
 
-    if icontract is not None:
+    use_icontract = icontract is not None
+    if use_icontract:
+        # icontract reserves these parameter names (binarize_rule has a
+        # parameter called `result`): such functions get the shim
+        import inspect
+        try:
+            names = set(inspect.signature(orig).parameters)
+        except (TypeError, ValueError):
+            names = set()
+        if names & {'result', 'OLD', '_ARGS', '_KWARGS'}:
+            use_icontract = False
+    if use_icontract:
         stack = []
 
         def capture(_ARGS, _KWARGS):
